@@ -26,6 +26,7 @@ BISECT_LEFT = {"bisect.bisect_left", "bisect_left"}
 
 def run(ck, an, tier):
     partitions(ck, an)
+    custom_events(ck, an)
     dispatch(ck, an)
     nxt(ck, an)
     env_side(ck, an)
@@ -233,6 +234,25 @@ def partitions(ck, an):
     for attr in ("_partition_latent", "_partition_nonlatent"):
         own_writers(ck, an, "S2.partitions-written-once", "Transmitter", attr, {"Transmitter._create_partitions", "Transmitter.__init__"}, min_sites=1)
     own_callers(ck, an, "S2.create-partitions-callers", "Transmitter._create_partitions", {"TradingEnv.__init__", "Transmitter._reset"})
+
+
+def custom_events(ck, an):
+    fa = an.fa("Transmitter.add_custom_events")
+    st = [s_ for s_ in all_stmts(fa) if isinstance(s_, ast.Assign) and ast.unparse(s_.targets[0]).endswith(".time")]
+    lp = [n for n in walk_function(fa.f.node) if isinstance(n, ast.For) and ast.unparse(n.iter) == "data.iterrows()"]
+    idx = lp[0].target.elts[0].id if lp and isinstance(lp[0].target, ast.Tuple) else "index"
+    ck.check(len(st) == 1 and ast.unparse(st[0].value) == idx and not fa.syntactic_guards(st[0]), "ARGFLOW", "S1.custom-event-time-is-row-index", fa.f.short, fa.f.loc, "a custom event is stamped with its row's index",
+             f"custom event time is {[ast.unparse(s_.value) for s_ in st]}", construct="event.time = index")
+    ap = [c for c in fa.calls_named("append") if ast.unparse(c.func.value) == "self.events"]
+    ck.check(len(ap) == 1 and lp and any(ap[0] is x for x in ast.walk(lp[0])) and not fa.syntactic_guards(ap[0]), "PATHCOUNT", "S2.custom-event-recorded", fa.f.short, fa.f.loc, "every row yields one event in self.events",
+             "custom events are not appended once per row", construct="self.events.append(event)")
+    fi = an.fa("Transmitter.__init__")
+    ts = assigns_to_attr(fi, "timesteps")
+    ck.check(len(ts) == 1 and ast.unparse(ts[0].value) == "list(timesteps)", "ARGFLOW", "S1.grid-copied", fi.f.short, fi.f.loc, "the transmitter keeps its own copy of the grid", f"timesteps = {[ast.unparse(x.value) for x in ts]}",
+             construct="self.timesteps = list(timesteps)")
+    ev = assigns_to_attr(fi, "events")
+    ck.check(len(ev) == 1 and ast.unparse(ev[0].value) in ("list()", "[]"), "ARGFLOW", "S2.events-start-empty", fi.f.short, fi.f.loc, "each transmitter starts with its own empty event list", f"events = {[ast.unparse(x.value) for x in ev]}",
+             construct="self.events = list()")
 
 
 def fw_loopvar(fa, loop, ev):
